@@ -13,6 +13,7 @@
 ARDUINOJSON_BEGIN_PRIVATE_NAMESPACE
 
 class StringPool {
+  ARDUINOJSON_VERIF_FRIEND
  public:
   StringPool() = default;
   StringPool(const StringPool&) = delete;
@@ -24,6 +25,7 @@ class StringPool {
 
   friend void swap(StringPool& a, StringPool& b) {
     swap_(a.strings_, b.strings_);
+    ARDUINOJSON_VERIF_EVENT(15, &a, &b, 0);
   }
 
   void clear(Allocator* allocator) {
@@ -32,6 +34,7 @@ class StringPool {
       strings_ = node->next;
       StringNode::destroy(node, allocator);
     }
+    ARDUINOJSON_VERIF_EVENT(14, this, 0, 0);
   }
 
   size_t size() const {
@@ -48,6 +51,7 @@ class StringPool {
     auto node = get(str);
     if (node) {
       node->references++;
+      ARDUINOJSON_VERIF_EVENT(11, this, node, node->references);
       return node;
     }
 
@@ -67,6 +71,7 @@ class StringPool {
     ARDUINOJSON_ASSERT(node != nullptr);
     node->next = strings_;
     strings_ = node;
+    ARDUINOJSON_VERIF_EVENT(10, this, node, node->length);
   }
 
   template <typename TAdaptedString>
@@ -82,6 +87,7 @@ class StringPool {
     StringNode* prev = nullptr;
     for (auto node = strings_; node; node = node->next) {
       if (node->data == s) {
+        ARDUINOJSON_VERIF_EVENT(12, this, node, node->references - 1);
         if (--node->references == 0) {
           if (prev)
             prev->next = node->next;
